@@ -2,7 +2,7 @@
 
 ENGINES = [
     dict(name='symx', path='/verif/symx',
-         serves_properties=['C01', 'C02', 'C03', 'C04', 'C05', 'C06', 'C07', 'C12', 'C13', 'C17', 'C20'],
+         serves_properties=['C01', 'C02', 'C03', 'C04', 'C05', 'C06', 'C07', 'C10', 'C12', 'C13', 'C16', 'C17', 'C20'],
          kind_free_text='symbolic execution of the real emsarray functions on numpy/xarray object arrays of z3-backed '
                         'scalars; fork-by-re-execution path explorer; every path closed by z3 verdict queries and a '
                         'concrete replay of a model on the unmodified stack'),
@@ -138,6 +138,32 @@ CHECKS = {
         note='Whole-command equivalence is validated on witnesses only (file I/O); non-ASCII input and shapefile export are '
              'outside. One genuine defect (prefix match) was repaired in /repo.',
         category='model_checking',
+    ),
+    'C10': dict(
+        engine='symx',
+        technique='solver-guided enumeration: node ids of the face-node table are z3 Ints under distinctness and canonical-labelling constraints, so z3 enumerates every mesh topology once up to node renaming; the real derivation code runs on each',
+        text='For every topology of 2-3 faces (sizes 3-5) the real Mesh2DTopology derivations are compared with reference '
+             'definitions (edges = consecutive node pairs, ring closed, no duplicates; face-edge in ring order; edge-face; '
+             'symmetric face-face). Fixed meshes are rebuilt in every encoding chosen by the solver (0/1-based, NaN / '
+             '_FillValue / none, transposed, supplied-table subsets, edge renumbering, coordinates as xarray coordinates): '
+             'identical normalised tables, polygons, centres and geometry inventory.',
+        design_ref='DESIGN.md section 4, C10',
+        note='Degenerates to enumeration once ids are fixed (hash/sort-based algorithms need concrete ids); numpy dtype '
+             'dispatch in _to_index_array is exercised concretely per encoding. Meshes without an edge dimension cannot '
+             'derive edge tables (documented NoEdgeDimensionException). One genuine defect repaired in /repo.',
+    ),
+    'C16': dict(
+        engine='symx',
+        technique='symbolic execution of the real hashing code with a recording hash object on a dataset stand-in whose geometry bytes are z3 BitVec(8) terms; z3 decides single-edit sensitivity and determinism of the byte stream',
+        text='The real hash_geometry / make_cache_key / hash_string / hash_int / hash_attributes build the stream from '
+             'symbolic names, dtype names, data and marshalled attributes (lengths enumerated by forking). z3 shows that '
+             'equal streams force the edited field (name, dtype, one value, shape with the same bytes, attributes) to be '
+             'equal, that the convention class changes the stream, and that the tail is module/class/version. Real '
+             'datasets: non-geometry edits keep the key, geometry edits change it, other hash seeds agree.',
+        design_ref='DESIGN.md section 4, C16',
+        note='blake2b collision resistance and marshal injectivity are assumed. marshal.dumps is modelled as value + '
+             'unconstrained sharing context; the resulting determinism counterexample reproduces on real datasets and is a '
+             'known finding.',
     ),
 }
 
